@@ -99,6 +99,9 @@ def specDispatch (toks : List String) : Option String :=
   match sm2Dispatch toks with
   | some r => some r
   | none =>
+  match c14Dispatch toks with
+  | some r => some r
+  | none =>
   match toks with
   | "sm4blk" :: rest => some (sm4blk rest)
   | "gcmenc" :: rest => some (gcmenc rest)
